@@ -118,7 +118,7 @@ ListedBodyRule(e) ==
                                          "body.size_max", "body.len_short", "body.len_long"}
     \/ e.c \in {ADD_MEM_REG, REM_MEM_REG} /\ e.var \in {"body.size0", "body.gpa_wrap", "body.ua_wrap", "body.off_wrap", "body.size_max"}
     \/ e.c = SET_VRING_ADDR /\ e.var \in {"body.flags_undef", "body.desc_unaligned", "body.used_unaligned", "body.avail_unaligned"}
-    \/ e.c \in {GET_CONFIG, SET_CONFIG} /\ e.var \in {"body.size0", "body.end_gt", "body.wrap", "body.flags_undef", "body.payload_short", "body.payload_long"}
+    \/ e.c \in {GET_CONFIG, SET_CONFIG} /\ e.var \in {"body.size0", "body.end_gt", "body.wrap", "body.size_huge", "body.flags_undef", "body.payload_short", "body.payload_long"}
     \/ e.c = SET_VRING_ENABLE /\ e.var = "body.num2"
     \/ e.c \in {SET_VRING_KICK, SET_VRING_CALL, SET_VRING_ERR} /\ e.var \in {"body.nofdbit_with_fd", "body.fdbit_without_fd"}
 HostileViol(e) ==
@@ -193,7 +193,17 @@ TVTeardown == /\ l <= Len(Rec) /\ Rec[l].ev = "teardown"
               /\ l' = l + 1
               /\ UNCHANGED <<s, devPF, judged, cur>>
 
-TVNext == TVTeardown \/ TVReset \/ TVReq
+\* the process hosting the server was killed by a signal (recorded by the driver): e.g. the double close of a descriptor
+\* the library gave away and also kept makes the Rust runtime abort when the application drops its copy
+TVCrash == /\ l <= Len(Rec) /\ Rec[l].ev = "crash"
+           /\ LET prev == IF l > 1 /\ Rec[l - 1].ev = "req" THEN "after-c=" \o Str(Rec[l - 1].c) \o "/var=" \o Rec[l - 1].var ELSE "no-request"
+                  sg == Str(Rec[l].signal) IN
+              viol' = AddViol(viol, {"C09/backend-server/process-killed-by-signal-" \o sg \o "-at-or-before-teardown/" \o prev,
+                                     "C05/process-killed-by-signal-" \o sg \o "/" \o prev}, cur)
+           /\ l' = l + 1
+           /\ UNCHANGED <<s, devPF, judged, cur>>
+
+TVNext == TVTeardown \/ TVReset \/ TVReq \/ TVCrash
 TVSpec == TVInit /\ [][TVNext]_tvars
 
 Post == PostOK
